@@ -634,6 +634,51 @@ mod proofs {
         std::mem::forget(r);
     }
 
+    // apply_local_settings (what OUR acknowledged SETTINGS change on the receive side), one stream in the
+    // store: the configured stream window moves to the new value, every stream's window AND available move
+    // by the same delta (so what is owed to the peer and what is in flight are untouched), and a
+    // WINDOW_UPDATE that is owed afterwards is queued (the lower window also lowers the 50% threshold, and
+    // the peer — whose window may now be <= 0 — cannot trigger it by sending).
+    // @harness id=recv_apply_local_settings props=C03,C06,C14,C08 kind=bounded bound=streams=1 tier=quick fn=Recv::apply_local_settings timeout=600
+    #[kani::proof]
+    #[kani::unwind(3)]
+    fn recv_apply_local_settings() {
+        let mut r = any_recv();
+        let old = recv_init_window(&r);
+        let mut st = any_stream_with_state(StreamId::from(ID), any_state_light());
+        st.is_pending_window_update = false;
+        let (sw0, sa0) = raw(&st.recv_flow);
+        let sf0 = st.in_flight_recv_data;
+        kani::assume(wf_recv_level(sw0, sa0, sf0));
+        kani::assume(sa0 as i64 + sf0 as i64 == old as i64); // I-recv-pool: available + in_flight == configured window
+        // I-queue (window updates): an update that was already owed is already queued; here: nothing owed yet
+        kani::assume(st.recv_flow.unclaimed_capacity().is_none());
+        let receiving = st.state.is_recv_streaming();
+        let mut store = Store::new();
+        let key = put(&mut store, st);
+        let target: u32 = kani::any();
+        kani::assume(target <= MAX_WINDOW_SIZE); // asserted by the public API / validated on load
+        let mut f = frame::Settings::default();
+        f.set_initial_window_size(Some(target));
+        let res = r.apply_local_settings(&f, &mut store);
+        let s1 = peek(&store, key).unwrap();
+        let (sw1, sa1) = raw(&s1.recv_flow);
+        let delta = target as i64 - old as i64;
+        assert!(res.is_ok(), "recv.apply_local_settings.accepted");
+        assert!(recv_init_window(&r) == target, "recv.apply_local_settings.new_streams_get_the_new_window");
+        assert!(sw1 as i64 == sw0 as i64 + delta && sa1 as i64 == sa0 as i64 + delta, "recv.apply_local_settings.window_and_available_move_by_delta");
+        assert!(s1.in_flight_recv_data == sf0, "recv.apply_local_settings.in_flight_untouched");
+        assert!(sa1 as i64 + s1.in_flight_recv_data as i64 == target as i64, "recv.apply_local_settings.pool_invariant_kept");
+        if receiving && s1.recv_flow.unclaimed_capacity().is_some() {
+            assert!(s1.is_pending_window_update && !recv_pending_window_updates_is_empty(&r), "recv.apply_local_settings.owed_window_update_is_queued");
+        }
+        kani::cover!(delta < 0 && receiving && s1.recv_flow.unclaimed_capacity().is_some(), "cover.lowered_and_owed");
+        kani::cover!(delta > 0, "cover.raised");
+        std::mem::forget(res);
+        std::mem::forget(store);
+        std::mem::forget(r);
+    }
+
     // enqueue_reset_expiration (C18): a locally reset stream is remembered only within the configured
     // quota; beyond it it is simply not remembered.
     // @harness id=recv_enqueue_reset_expiration props=C18,C19,C08 kind=complete tier=quick fn=Recv::enqueue_reset_expiration
